@@ -1,12 +1,12 @@
 #!/usr/bin/env python3
-"""confirm_seed.py <Cxx> <a|b>: independently confirm a seeded change from /tmp/seed/<Cxx>/<a|b>:
+"""confirm_seed.py <Cxx> <a|b|c..>: independently confirm a seeded change from $SEED_ROOT (default /tmp/seed)/<Cxx>/<letter>:
  - demo passes on the clean tree, fails with the patch;
  - patched tree builds and the pinned baseline tests still pass;
 then run /verif's check(s) for the property on the patched tree and store everything under /verif/seeded/<Cxx><ab>/."""
 import sys, os, re, json, shutil, subprocess, tempfile, glob
 prop, ab = sys.argv[1], sys.argv[2]
 extra_props = sys.argv[3:]  # additional properties to run
-src = f"/tmp/seed/{prop}/{ab}"
+src = os.path.join(os.environ.get("SEED_ROOT", "/tmp/seed"), prop, ab)
 patch = os.path.join(src, "patch.diff")
 demos = glob.glob(os.path.join(src, "demo*.go"))
 assert os.path.exists(patch) and demos, "missing deliverables in " + src
